@@ -32,6 +32,7 @@ Premises (DESIGN §6), all visible as hypotheses:
 -/
 import DeapModel.Lemmas.C18Aux
 import DeapModel.Lemmas.C18Text
+import DeapModel.Lemmas.C18Stats
 
 set_option linter.unusedSectionVars false
 set_option linter.unusedSimpArgs false
@@ -658,6 +659,127 @@ theorem multi_register_spec (m : Multi δ κ φ ρ) (name : Name) (fn : φ → L
 
 end Statistics
 
+/-! ### MultiStatistics and its Statistics objects as mutable state (`Core/StatsHist.lean`)
+
+A history is any list of `Stats.MOp`: objects are created, registered on (directly or through the
+`MultiStatistics`, names re-registered), stored / replaced / removed with EVERY mutator of the dict
+(`ms[k] = s`, `del`, `update`, `|=`, `setdefault`, `pop`, `popitem`, `clear`), and `fields` / `compile` are
+evaluated in between. -/
+
+section StatsHistories
+open Stats
+variable {δ κ φ ρ : Type}
+
+/-- `compile` after a history is a function of the CURRENT mapping and the data only:
+* the evaluations of `fields` / `compile` (and of an object's `fields`) that happened during the history can be
+  struck out of it without changing the state it ends in (nothing is remembered from one evaluation to the next),
+* `compile` leaves the state as it is and returns `Multi.compile` of the resolved current mapping
+  (`view`: the `items()` of the dict, name → statistics object), i.e. one `Stats.compile` record per item,
+* so two histories (from any two states) that end in the same resolved mapping compile to the same record. -/
+theorem compile_after_history (st : MS δ κ φ ρ) (h : List (MOp δ κ φ ρ)) (data : List δ) :
+    Stats.runFrom st (h.filter fun op => !op.isObs) = Stats.runFrom st h ∧
+    Stats.step (Stats.runFrom st h) (.compile data) =
+      (Stats.runFrom st h, .record (Multi.compile (view (Stats.runFrom st h)) data)) ∧
+    ∀ (st' : MS δ κ φ ρ) (h' : List (MOp δ κ φ ρ)),
+      view (Stats.runFrom st' h') = view (Stats.runFrom st h) →
+        (Stats.step (Stats.runFrom st' h') (.compile data)).2 =
+          (Stats.step (Stats.runFrom st h) (.compile data)).2 := by
+  refine ⟨?_, rfl, ?_⟩
+  · induction h generalizing st with
+    | nil => rfl
+    | cons op ops ih =>
+      by_cases ho : op.isObs = true
+      · have hs := step_obs st op ho
+        simp only [List.filter_cons, ho, Bool.not_true, Bool.false_eq_true, if_false]
+        rw [ih st]
+        simp only [Stats.runFrom, List.foldl_cons, hs]
+      · have ho' : op.isObs = false := by simpa using ho
+        simp only [List.filter_cons, ho', Bool.not_false, if_true]
+        simp only [Stats.runFrom, List.foldl_cons]
+        exact ih _
+  · intro st' h' hv
+    simp only [Stats.step, compileOf, hv]
+
+/-- The keys of the compiled record are the keys of the mapping, in its order and each exactly once — after
+every history on a fresh `MultiStatistics()`: exactly one sub-record per statistics object currently in the
+mapping, and that sub-record is the object's own `compile`. -/
+theorem multi_compile_keys (h : List (MOp δ κ φ ρ)) (data : List δ) :
+    (compileOf (Stats.run h) data).map (·.1) = dKeys (Stats.run h).map ∧
+    (dKeys (Stats.run h).map).Nodup ∧
+    ∀ k id, (k, id) ∈ (Stats.run h).map →
+      ∃ s, (Stats.run h).heap[id]? = some s ∧ (k, Stats.compile s data) ∈ compileOf (Stats.run h) data := by
+  have hi : MInv (Stats.run h) := minv_runFrom _ h minv_empty
+  refine ⟨?_, hi.2, ?_⟩
+  · rw [← view_keys _ hi.1]
+    simp [compileOf, Multi.compile, List.map_map, Function.comp_def]
+  · intro k id hm
+    have hlt := hi.1 (k, id) hm
+    refine ⟨(Stats.run h).heap[id], List.getElem?_eq_getElem hlt, ?_⟩
+    simp only [compileOf, Multi.compile, view, List.mem_map, List.mem_filterMap]
+    exact ⟨(k, (Stats.run h).heap[id]), ⟨(k, id), hm, by simp [List.getElem?_eq_getElem hlt]⟩, rfl⟩
+
+/-- A registration overrides: after `register(name, fn, *args)` the compiled record holds, under `name`,
+`fn` with the NEW frozen arguments applied to the tuple of key values, whatever was registered under that name
+before; every other name compiles as before. -/
+theorem register_overrides (s : Statistics δ κ φ ρ) (name : Name) (fn : φ → List κ → ρ) (args : φ)
+    (data : List δ) (n : Name) :
+    (Stats.compile (Stats.register s name fn args) data).lookup n =
+      if n = name then some (fn args (data.map s.key)) else (Stats.compile s data).lookup n := by
+  have hmap : ∀ (fs : List (Name × (φ × (φ → List κ → ρ)))) (vals : List κ),
+      (fs.map fun p => (p.1, p.2.2 p.2.1 vals)).lookup n =
+        (fs.lookup n).map fun w => w.2 w.1 vals := by
+    intro fs vals
+    induction fs with
+    | nil => rfl
+    | cons p ps ih =>
+      by_cases h : n = p.1
+      · subst h; simp [List.lookup]
+      · have hb : (n == p.1) = false := by simpa using h
+        simp [List.lookup, hb, ih]
+  simp only [Stats.compile, hmap, Stats.register, lookup_setFn]
+  by_cases h : n = name <;> simp [h]
+
+/-- … and through the `MultiStatistics`: after `ms.register(name, fn, *args)` every object that is stored in the
+mapping (under whatever name, also when stored twice) compiles `name` to `fn args (key values)`, keeps its key
+and compiles every other name as before; objects that are not in the mapping are untouched. -/
+theorem register_overrides_multi (st : MS δ κ φ ρ) (name : Name) (fn : φ → List κ → ρ) (args : φ)
+    (id : Nat) (s : Statistics δ κ φ ρ) (hs : st.heap[id]? = some s) (data : List δ) :
+    ∃ s', (Stats.step st (.register name fn args)).1.heap[id]? = some s' ∧
+      (Stats.step st (.register name fn args)).1.map = st.map ∧
+      ∀ n, (Stats.compile s' data).lookup n =
+        if n = name ∧ id ∈ st.map.map (·.2) then some (fn args (data.map s.key))
+        else (Stats.compile s data).lookup n := by
+  obtain ⟨s', e1, e2, e3⟩ := registerHeap_get st.heap (st.map.map (·.2)) name fn args id s hs
+  refine ⟨s', e1, rfl, ?_⟩
+  intro n
+  have hmap : ∀ (fs : List (Name × (φ × (φ → List κ → ρ)))) (vals : List κ),
+      (fs.map fun p => (p.1, p.2.2 p.2.1 vals)).lookup n =
+        (fs.lookup n).map fun w => w.2 w.1 vals := by
+    intro fs vals
+    induction fs with
+    | nil => rfl
+    | cons p ps ih =>
+      by_cases h : n = p.1
+      · subst h; simp [List.lookup]
+      · have hb : (n == p.1) = false := by simpa using h
+        simp [List.lookup, hb, ih]
+  simp only [Stats.compile, hmap, e3 n, e2]
+  split <;> simp
+
+/-- `fields` is the sorted list of the names CURRENTLY in the mapping (after any history, from any state):
+ascending, a permutation of the dict's keys, and reading it changes nothing. -/
+theorem fields_sorted_current (st : MS δ κ φ ρ) (h : List (MOp δ κ φ ρ)) :
+    Stats.step (Stats.runFrom st h) .fields = (Stats.runFrom st h, .names (fieldsOf (Stats.runFrom st h))) ∧
+    (fieldsOf (Stats.runFrom st h)).Pairwise (· ≤ ·) ∧
+    (fieldsOf (Stats.runFrom st h)).Perm (dKeys (Stats.runFrom st h).map) ∧
+    ∀ n, n ∈ fieldsOf (Stats.runFrom st h) ↔ dHas (Stats.runFrom st h).map n = true := by
+  refine ⟨rfl, pairwise_sortNames _, perm_sortNames _, ?_⟩
+  intro n
+  rw [dHas_iff]
+  exact (perm_sortNames _).mem_iff
+
+end StatsHistories
+
 /-! ### Non-vacuity: concrete instances of the hypotheses above -/
 
 /-- records with the chapter `10`, a stream, a negative-index deletion, a `pop` on the logbook
@@ -731,5 +853,25 @@ example : Stats.compile (registerAll (Stats.new (fun (l : List Int) => (l.length
        (2, fun a v => a.headD 0 * v.foldl (· + ·) 0 + (a.drop 1).headD 0, [2, 3]),
        (1, fun _ v => v.foldl max 0, [])])
     [[1, 2], [3], [4, 5, 6]] = [(1, 3), (2, 15)] := by decide
+
+-- MultiStatistics histories: two objects, `fields` and `compile` evaluated, then `update` / `setdefault` / `pop`
+-- (the mutators that are not `__setitem__` / `__delitem__`), a re-registration through the MultiStatistics
+def demoMOps : List (Stats.MOp (List Int) Int (List Int) Int) :=
+  [.alloc (fun l => (l.length : Int)), .regObj 0 1 (fun _ v => v.foldl (· + ·) 0) [],
+   .alloc (fun l => l.headD 0), .regObj 1 1 (fun _ v => v.foldl max 0) [],
+   .setItem 10 0, .fields, .compile [[1, 2], [3]],
+   .update [(11, 1)], .setDefault 12 1, .setDefault 10 1, .pop 10,
+   .register 1 (fun a v => a.headD 0 * v.foldl (· + ·) 0) [2]]
+example : (Stats.run demoMOps).map = [(11, 1), (12, 1)] ∧
+    Stats.fieldsOf (Stats.run demoMOps) = [11, 12] ∧
+    Stats.compileOf (Stats.run demoMOps) [[1, 2], [3]] = [(11, [(1, 8)]), (12, [(1, 8)])] ∧
+    Stats.compileOf (Stats.run (demoMOps.take 7)) [[1, 2], [3]] = [(10, [(1, 3)])] := by decide
+-- hypothesis of `register_overrides_multi`: object 1 is on the heap of that state
+example : ∃ s, (Stats.run demoMOps).heap[1]? = some s := ⟨_, rfl⟩
+-- hypothesis of `compile_after_history` (third part): two different histories ending in the same resolved mapping
+example : Stats.view (Stats.run [Stats.MOp.alloc (fun (l : List Int) => (l.length : Int)), .setItem 10 0,
+      (.fields : Stats.MOp (List Int) Int (List Int) Int), .pop 10]) =
+    Stats.view (Stats.run [Stats.MOp.alloc (fun (l : List Int) => (l.length : Int)),
+      (.clear : Stats.MOp (List Int) Int (List Int) Int)]) := rfl
 
 end C18
